@@ -88,6 +88,12 @@ def _rebind_hook(sim, market, a):
     return call
 
 
+def _add_save(rx, opts, faults):
+    if rx.random() < 0.1:
+        opts["save_result"] = rx.choice(["csv", "csv", "csv_rounded", "pickle"])
+        faults.append({"kind": "result_saved_then_read_again"})
+
+
 def _add_rebinds(rx, program, nb, faults):
     """in 8% of the runs the strategy re-assigns one or two of its hooks while the loop is running"""
     if nb < 2 or rx.random() >= 0.08:
@@ -162,6 +168,7 @@ def generate(seed: int, tier: str = "quick") -> dict:
     faults = []
     _add_expiring(R.sub(seed, "expiring"), opts, labels, faults)
     _add_rebinds(R.sub(seed, "rebind"), program, nb, faults)
+    _add_save(R.sub(seed, "save_result"), opts, faults)
     if any(o["phase"] == "trigger" for o in program):
         opts["trigger_phase"] = True
     if interval == "1min" and R.sub(seed, "second_actuator").random() < 0.12:
@@ -195,6 +202,7 @@ def gen_donor(seed, tier, donor):
     faults = [{"kind": "donor:" + donor}]
     _add_expiring(R.sub(seed, "expiring"), opts, DN.bar_times(base["world"]), faults)
     _add_rebinds(R.sub(seed, "rebind"), prog, nb, faults)
+    _add_save(R.sub(seed, "save_result"), opts, faults)
     if any(o["phase"] == "trigger" for o in prog):
         opts["trigger_phase"] = True
     # an option market with many listed instruments: its (time, instrument) frame then has more ROWS than the minutely
@@ -477,10 +485,48 @@ def _raw_result(sim, outcome):
     return outcome.get("result")
 
 
+def _history_digest(sim):
+    from ..canon import digest
+
+    df = sim.actuator.account_status_df
+    return digest([canon(df), [str(x) for x in df.index], [str(type(x).__name__) for x in df.index[:3]], [str(c) for c in df.columns],
+                   [[type(a).__name__, canon(a.timestamp)] for a in sim.actuator.actions]])
+
+
+def _save_and_look_again(sim, how):
+    """The user saves the finished run (Actuator.save_result into a private directory) and goes on working with the live
+    result: account history and action records are what they were before the save."""
+    import os
+    import shutil
+    import tempfile
+
+    from ..sim import private_cwd
+
+    before = _history_digest(sim)
+    d = tempfile.mkdtemp(prefix="saved-", dir=private_cwd())
+    try:
+        kw = {"file_format": "pickle"} if how == "pickle" else ({"decimals": 3} if how == "csv_rounded" else {})
+        try:
+            sim.actuator.save_result(d, file_name="run", **kw)
+        except Exception as e:  # the writer's own failure is not this property's subject
+            sim.count("probe:save_result_raised:" + type(e).__name__)
+            return
+        sim.count("fault:result_saved_then_read_again:" + how)
+        after = _history_digest(sim)
+        if after != before:
+            df = sim.actuator.account_status_df
+            sim.violate("c05.account_rows", "changed_by_save_result:" + how, index_head=[str(x) for x in df.index[:3]],
+                        index_type=type(df.index).__name__)
+    finally:
+        shutil.rmtree(d, ignore_errors=True)
+
+
 def execute(scenario):
     if scenario.get("donor"):
         DN.prepare(scenario["donor"])
     sim = Sim(scenario, LoopOracle(), trace=True, strategy_cls=TracedStrategy).run()
+    if scenario.get("opts", {}).get("save_result") and sim.crash is None:
+        _save_and_look_again(sim, scenario["opts"]["save_result"])
     if scenario.get("opts", {}).get("second_actuator") and sim.crash is None and not sim.violations:
         # the same market objects attached to a second, fresh Actuator (a notebook that builds a new back test around the
         # markets it already has): that run's records, notifications and rows are that run's
